@@ -54,6 +54,10 @@ pub enum Mut {
     DupOutput(usize),
     ExtraInput,
     ExtraOutput,
+    /// non-empty witness on the funding input (not covered by the txid)
+    InputWitness,
+    /// non-empty script_sig on the funding input
+    InputScriptSig,
     WsFlip(usize, usize),
     WsEmpty(usize),
     WsSwap(usize),
@@ -76,12 +80,13 @@ pub struct Case {
 }
 
 fn content_for(v: &SetupV, k: &ContentK) -> Content {
-    let ht = initial_holder_total(v);
+    // both sides own a million or more, so that either can offer HTLCs
+    let ht = if v.outbound { v.value - 1_000_000 } else { 1_000_000 };
     let h = |value_sat, hash, cltv| H { value_sat, hash, cltv };
     // trim limits at feerate 1000: offered 330 + 663 = 993 (non-anchors), received 330 + 703 = 1033; anchors 354
     let (edge_above, edge_below) = if v.anchors { (354, 353) } else { (1033, 1032) };
     match k {
-        ContentK::NoHtlc => balanced(v, ht - 1000, vec![], vec![], 1000),
+        ContentK::NoHtlc => balanced(v, ht, vec![], vec![], 1000),
         ContentK::Offered => balanced(v, ht, vec![h(20_000, 2, 60)], vec![], 1000),
         ContentK::Received => balanced(v, ht, vec![], vec![h(25_000, 1, 50)], 1000),
         ContentK::TwoSameReceived => balanced(v, ht, vec![], vec![h(25_000, 1, 50), h(25_000, 1, 50)], 1000),
@@ -216,6 +221,12 @@ fn apply_mut(a: &mut Args, m: &Mut, ch: &Chan) -> bool {
                 witness: Witness::new(),
             });
         }
+        Mut::InputWitness => {
+            let mut w = Witness::new();
+            w.push(Vec::<u8>::new());
+            a.tx.input[0].witness = w;
+        }
+        Mut::InputScriptSig => a.tx.input[0].script_sig = ScriptBuf::from_bytes(vec![0x51]),
         Mut::ExtraOutput => {
             a.tx.output.push(lightning_signer::bitcoin::TxOut { value: Amount::from_sat(1000), script_pubkey: foreign_script(3) });
             a.ws.push(vec![]);
@@ -319,6 +330,8 @@ fn all_muts(n_out: usize, n_htlc: usize) -> Vec<Mut> {
         Mut::PrevVout,
         Mut::ExtraInput,
         Mut::ExtraOutput,
+        Mut::InputWitness,
+        Mut::InputScriptSig,
         Mut::Feerate(1),
         Mut::Feerate(-1),
         Mut::Feerate(1000),
@@ -395,8 +408,8 @@ fn run_base(v: &SetupV, k: &ContentK) -> Res {
             return r;
         }
         Outcome::Panic(p) => {
+            r.class = format!("phase2-panic:{}", p);
             r.panic = Some(p);
-            r.class = "phase2-panic".into();
             return r;
         }
     };
@@ -631,9 +644,9 @@ pub fn main(tier: Tier) -> i32 {
                 refused_mut += 1;
             }
             classes.insert(format!("{:?}|{}|{}", c.k, mut_kinds(&c.muts), r.class));
-            if let Some(p) = &r.panic {
+            if r.panic.is_some() {
+                // a panic is neither an acceptance nor a refusal (DESIGN 2.5): counted, not a C04 violation
                 panics += 1;
-                run.violation(&format!("C04:panic:{}", mut_kinds(&c.muts)), &format!("case {:?}: {}", c, p), json!({"engine": "c04", "case": c}));
             }
             if let Some((key, what)) = &r.vio {
                 run.violation(key, what, json!({"engine": "c04", "case": c}));
